@@ -26,7 +26,7 @@ func reg(name string, f stubFn) {
 const mathPkg = "cosmossdk.io/math"
 
 func nilDeref(what string) {
-	panic(targetPanic{what + ": nil pointer dereference (nil math value)"})
+	panic(targetPanic{strPanic(what + ": nil pointer dereference (nil math value)")})
 }
 
 func (fr *frame) ctx() *smt.Ctx { return fr.i.eng.Ctx }
@@ -130,7 +130,7 @@ func (fr *frame) ovf(t *smt.Term, bits uint, what string) {
 	}
 	over := c.Or(c.Ge(t, c.Int(lim)), c.Le(t, c.Int(new(big.Int).Neg(lim))))
 	if fr.i.eng.Branch(over, what+" overflow?") {
-		panic(targetPanic{"Int overflow"})
+		panic(targetPanic{strPanic("Int overflow")})
 	}
 }
 
@@ -382,7 +382,7 @@ func init() {
 			unsupported("LegacyNewDecWithPrec with symbolic arguments")
 		}
 		if p.Int64() > 18 || p.Int64() < 0 {
-			panic(targetPanic{fmt.Sprintf("too much precision, maximum 18, provided %d", p.Int64())})
+			panic(targetPanic{strPanic(fmt.Sprintf("too much precision, maximum 18, provided %d", p.Int64()))})
 		}
 		den := new(big.Int).Exp(big.NewInt(10), p, nil)
 		return fr.decConst(new(big.Rat).SetFrac(n, den))
@@ -393,7 +393,7 @@ func init() {
 			unsupported("LegacyNewDecFromIntWithPrec with symbolic precision")
 		}
 		if p.Int64() > 18 || p.Int64() < 0 {
-			panic(targetPanic{fmt.Sprintf("too much precision, maximum 18, provided %d", p.Int64())})
+			panic(targetPanic{strPanic(fmt.Sprintf("too much precision, maximum 18, provided %d", p.Int64()))})
 		}
 		c := fr.ctx()
 		x := intT(a[0])
@@ -418,7 +418,7 @@ func init() {
 	reg(F+"LegacyMustNewDecFromStr", func(fr *frame, a []value) value {
 		d, ok := parseDec(fr, a[0].(string))
 		if !ok {
-			panic(targetPanic{"LegacyMustNewDecFromStr: invalid decimal " + a[0].(string)})
+			panic(targetPanic{strPanic("LegacyMustNewDecFromStr: invalid decimal " + a[0].(string))})
 		}
 		return d
 	})
